@@ -53,7 +53,7 @@ func javaBatch(lines []string) ([]string, error) {
 	if err != nil {
 		return nil, fmt.Errorf("RefModel adapter: %v: %s", err, strings.SplitN(errb.String(), "\n", 2)[0])
 	}
-	res := strings.Split(strings.TrimRight(string(out), "\n"), "\n")
+	res := strings.Split(strings.TrimSuffix(string(out), "\n"), "\n")
 	if len(res) != len(lines) {
 		return nil, fmt.Errorf("RefModel adapter: %d answers for %d questions (stderr: %s)", len(res), len(lines), strings.SplitN(errb.String(), "\n", 2)[0])
 	}
